@@ -198,8 +198,9 @@ def expected_iana(form_langs):
     return [tuple(sorted(bad))] if bad else []
 
 
-def judge(ctx, sheets, sig, klass, args=None, langs_in_output=None, form=None):
-    o = drive.convert_sheets(sheets, args=args or {})
+def judge(ctx, sheets, sig, klass, args=None, langs_in_output=None, form=None, fmt="dict"):
+    o = drive.convert_sheets(sheets, fmt=fmt, args=args or {})
+    ctx.ctr(f"container:{fmt}")
     if not o.ok:
         ctx.ctr(f"rejected:{klass}")
         if not o.exc_is_pyxform:
@@ -210,7 +211,7 @@ def judge(ctx, sheets, sig, klass, args=None, langs_in_output=None, form=None):
     got = recognise(o.warnings)
     exp = expected(sheets)
     wit = {"sheets_md": common.sheets_to_md(sheets)[:3000], "warnings": o.warnings[:12], "klass": klass,
-           "sheets": {k: [list(h), rows] for k, (h, rows) in sheets.items()}, "args": args or {}}
+           "sheets": {k: [list(h), rows] for k, (h, rows) in sheets.items()}, "args": args or {}, "fmt": fmt}
     # iana: languages = translations in the output
     from .. import xf
     try:
@@ -408,11 +409,24 @@ def run_shard(ctx):
                 form.settings = dict([("id_string", "other_id")] + [(k, x) for k, x in form.settings.items() if k != "id_string"])  # id_string column first
         if rng.random() < 0.2:
             form.extra_sheets[rng.choice(["setting", "Settings ", "entity", "entitis", "_setting", "sett", "choice"])] = (["a"], [["1"]])
-        judge(ctx, form.to_sheets(), common.feature_sig(form), "rows", args=form.args)
+        sheets = form.to_sheets()
+        fmt = "dict"
+        if rng.random() < 0.4:
+            # blank spacer rows between the data rows (kept by the workbook readers and by dict input so that cited row numbers stay those of the spreadsheet)
+            for sn in ("choices", "survey"):
+                if sn in sheets and rng.random() < 0.8:
+                    h, rws = sheets[sn]
+                    rws = [list(r) for r in rws]
+                    for _ in range(rng.randint(1, 4)):
+                        rws.insert(rng.randint(0, max(0, len(rws) - 1)), [None] * len(h))
+                    sheets[sn] = (h, rws)
+            ctx.ctr("forms_with_blank_spacer_rows")
+            fmt = rng.choice(["dict", "xlsx", "xls"])
+        judge(ctx, sheets, common.feature_sig(form) + f"|{fmt}", "rows", args=form.args, fmt=fmt)
 
 
 def replay(w):
     def chk(ctx, wit):
         sheets = {k: (v[0], v[1]) for k, v in wit["sheets"].items()}
-        judge(ctx, sheets, "replay", wit.get("klass", "replay"), args=wit.get("args"))
+        judge(ctx, sheets, "replay", wit.get("klass", "replay"), args=wit.get("args"), fmt=wit.get("fmt", "dict"))
     return common.replay_with(PROP, w, chk)
